@@ -60,12 +60,30 @@ type Ctx struct {
 	mu       sync.Mutex
 	lastEmit int64  // unix ns of the last progress (atomic)
 	pending  atomic.Value // op line announced by Begin and not emitted yet
+	pendF    *os.File     // the same, on disk: survives a crash of the process (read by ./check)
+}
+
+// notePending keeps pending.txt current: "<length>\n<op>"; length 0 = nothing in flight.
+func (c *Ctx) notePending(op string) {
+	if c.pendF == nil {
+		return
+	}
+	_, _ = c.pendF.WriteAt([]byte(fmt.Sprintf("%-10d\n%s", len(op), op)), 0)
 }
 
 // Begin announces the case about to be executed, so that the watchdog can name it if it never returns.
 func (c *Ctx) Begin(op string) {
 	atomic.StoreInt64(&c.lastEmit, time.Now().UnixNano())
 	c.pending.Store(op)
+	if c.emitHook == nil {
+		// everything emitted so far reaches the disk before the case runs: a panic on a goroutine the harness does
+		// not own kills the process, and ./check then reports this case with the cases before it intact
+		c.mu.Lock()
+		c.ops.Flush()
+		c.impl.Flush()
+		c.mu.Unlock()
+		c.notePending(op)
+	}
 }
 
 // watchdog: when nothing was emitted for limit, the implementation is wedged (a request that never
@@ -105,7 +123,10 @@ func (c *Ctx) Emit(op, obs string) {
 	c.Count++
 	c.mu.Unlock()
 	atomic.StoreInt64(&c.lastEmit, time.Now().UnixNano())
-	c.pending.Store("")
+	if p, _ := c.pending.Load().(string); p != "" {
+		c.pending.Store("")
+		c.notePending("")
+	}
 }
 func (c *Ctx) Kind(k string) { c.Kinds[k]++ }
 
@@ -197,6 +218,7 @@ func main() {
 	}
 	c := &Ctx{R: &Rng{s: *seed*0x9e3779b97f4a7c15 + 0x1234567}, N: *n, Tier: *tier, Corpus: *corpus,
 		ops: bufio.NewWriterSize(of, 1<<20), impl: bufio.NewWriterSize(inf, 1<<20), Kinds: map[string]int{}}
+	c.pendF, _ = os.Create(filepath.Join(*out, "pending.txt"))
 	finish := func() {
 		c.ops.Flush()
 		c.impl.Flush()
